@@ -696,8 +696,17 @@ def run_delta(ctx, case):
     ctx.count("shape_delta_" + case["shape"])
     ins = [mu.copy(), W.copy(), a.copy()]
     r = call(get_delta, *ins)
+    first_now = np.array(np.ravel(r[1]), dtype=float, copy=True) if r[0] != "exc" and isinstance(r[1], np.ndarray) else None
     ins2 = [mu.copy(), W.copy(), a.reshape(-1, 1).copy()]
     r2 = call(get_delta, *ins2)
+    if first_now is not None and len(mu) > 1:
+        # the gap array the caller still holds must not change when get_delta is asked about other values afterwards
+        call(get_delta, (mu[::-1] * 2.0 + 1.0).copy(), W.copy(), a.copy())
+        late = np.ravel(r[1])
+        if late.shape != first_now.shape or not np.array_equal(late, first_now, equal_nan=True):
+            _viol(ctx, "result-changes-after-later-call", "the gap array returned by get_delta, kept by the caller, "
+                  "changed after a later get_delta call on other values", case)
+            return
     if any(not np.array_equal(x, y) for x, y in zip(ins + ins2, [mu, W, a, mu, W, a.reshape(-1, 1)])):
         _viol(ctx, "delta-mutates-input", "get_delta changed one of its input arrays", case)
     for rr in (r, r2):
